@@ -219,6 +219,58 @@ DIRECTED = [
 ]
 
 
+# ---- untrusted search with z3 for a tuple whose tie is broken but the grid found no separating assignment ----
+import re as _re
+
+
+def _smt(t):
+    """printed term (harness syntax) -> SMT-LIB"""
+    def lit(m):
+        kind, v = m.group(1), m.group(2)
+        neg = v.startswith("-")
+        v = v[1:] if neg else v
+        if "/" in v:
+            n, d = v.split("/")
+            body = "(/ %s.0 %s.0)" % (n, d)
+        else:
+            body = v + (".0" if kind == "r" else "")
+        return "(- %s)" % body if neg else body
+    t = _re.sub(r"#([ir])(-?[0-9/]+)", lit, t)
+    t = _re.sub(r"#u([0-9]+)", r"cu\1", t)
+    return t.replace("(neg ", "(- ")
+
+
+def z3_search(lg, op, args, res):
+    """returns an assignment string 'x=v ...' or None"""
+    if any(x in " ".join(args) + res for x in ("select", "store", "(f ", "(g ", "(p ", "(hi ", "(hr ", "(pi ")):
+        return None
+    decl = []
+    for k in range(3):
+        decl += ["(declare-fun b%d () Bool)" % k, "(declare-fun i%d () Int)" % k, "(declare-fun r%d () Real)" % k,
+                 "(declare-fun u%d () U)" % k, "(declare-fun cu%d () U)" % k]
+    lhs = "(%s %s)" % ("-" if op == "neg" else op, " ".join(_smt(a) for a in args))
+    script = "(declare-sort U 0)\n" + "\n".join(decl) + "\n(assert (distinct cu0 cu1 cu2))\n" + \
+        "(assert (not (= %s %s)))\n(check-sat)\n(get-model)\n" % (lhs, _smt(res))
+    rc, out = vlib.run_ref("z3", script, timeout=10)
+    if not out.startswith("sat"):
+        return None
+    asg = []
+    for m in _re.finditer(r"\(define-fun ([bir][0-2]) \(\) (?:Bool|Int|Real)\s+([^\n]*)\)\s*\n", out):
+        name, val = m.group(1), m.group(2).strip()
+        val = val.replace(".0", "")
+        mm = _re.fullmatch(r"\(- (.*)\)", val)
+        neg = bool(mm)
+        if mm:
+            val = mm.group(1)
+        mm = _re.fullmatch(r"\(/ ([0-9]+) ([0-9]+)\)", val)
+        if mm:
+            val = "%s/%s" % (mm.group(1), mm.group(2))
+        if not _re.fullmatch(r"[0-9/]+|true|false", val):
+            continue
+        asg.append("%s=%s%s" % (name, "-" if neg else "", val))
+    return " ".join(asg)
+
+
 def parse_verdict(line):
     d = {}
     for f in line.split("\t"):
@@ -241,7 +293,7 @@ def run(ctx):
     for p in sorted(glob.glob(os.path.join(vlib.VERIF, "corpus", "C14", "*.txt"))):
         lines += [l.strip() for l in open(p) if l.strip() and not l.startswith("#")]
     lines += DIRECTED
-    n_rec = 2600 if ctx.quick else 130000
+    n_rec = 6400 if ctx.quick else 300000
     per = max(1, n_rec // len(LOGICS))
     # exhaust the distinct classes of one QF_UF object first so that the O(n^2) expansion is exercised as well
     for lg in LOGICS:
@@ -280,7 +332,7 @@ def run(ctx):
     if rc2 != 0 or len(ver) < len(uniq):
         ctx.tie_broken("ctors-model-run", "rc=%s lines %d/%d %s" % (rc2, len(ver), len(uniq), out2[-300:]))
         return
-    n_unfixed = n_expanded = n_nc = 0
+    n_unfixed = n_expanded = n_nc = n_z3 = 0
     for l, vl in zip(uniq, ver):
         f = l.split("\t")
         lg, op, res, rt, args = f[1], f[2], f[3], f[5], f[6:]
@@ -304,6 +356,15 @@ def run(ctx):
             ctx.tie_broken("wf-invariant", "an argument built through the API is not well-formed (wsort/nf)", case)
         if W == "2" and T == "diff":
             ctx.tie_broken("ctors-correspondence:" + op, "model %s, implementation %s, args %s" % (v.get("model"), res, args), case)
+            if not S.startswith("cex:") and n_z3 < 5 and not (res.startswith("exc") or res == "undef"):
+                # the grid found nothing: ask z3 (untrusted) for a separating assignment, confirm it with the extracted eval
+                n_z3 += 1
+                asg = z3_search(lg, op, args, res)
+                if asg is not None:
+                    rc3, out3 = vlib.sh(exe, input="\t".join(["V", asg, op, res] + args) + "\n", timeout=60)
+                    v3 = parse_verdict(out3.split("\n")[0])
+                    if v3.get("S", "").startswith("cex:"):
+                        S = v3["S"]
         if T == "ok-unfixed":
             n_unfixed += 1
         if T == "ok-expanded":
